@@ -108,8 +108,37 @@ SudokuSoundVerdict(r) ==
     ELSE IF \E i \in DOMAIN r.bad : EvalFull(r.ast, GridAsg(r.bad[i], r.r)) THEN "a near miss satisfies the formula"
     ELSE ""
 
+\* C17 beyond exact model-set comparison: the formula is the exact-cover encoding -- hints plus one '= 1'
+\* list per cell, per (row, digit), per (column, digit) and per (box, digit), nothing else.  For this shape the
+\* models are exactly the completed grids (each list is one sudoku rule).
+SudokuCoverVerdict(r) ==
+    LET sq == Sq(r.r)
+        cells == 0..(sq * sq - 1)
+        V(c, dgt) == c * sq + dgt                         \* variable index of (cell, digit)
+        Ls == ListsOf(r.ast)
+        lists == {L \in Ls : L[1] = "cc"}
+        units == {VarsOfList(L) : L \in lists}
+        cellUnit(c) == {V(c, dgt) : dgt \in 1..sq}
+        rowUnit(i, dgt) == {V(i * sq + j, dgt) : j \in 0..(sq - 1)}
+        colUnit(j, dgt) == {V(i * sq + j, dgt) : i \in 0..(sq - 1)}
+        boxUnit(b, dgt) == {V(c, dgt) : c \in {x \in cells : BoxOf(x, r.r) = b}}
+        boxes == {BoxOf(c, r.r) : c \in cells}
+        expected == {cellUnit(c) : c \in cells}
+                    \cup {rowUnit(i, dgt) : i \in 0..(sq - 1), dgt \in 1..sq}
+                    \cup {colUnit(j, dgt) : j \in 0..(sq - 1), dgt \in 1..sq}
+                    \cup {boxUnit(b, dgt) : b \in boxes, dgt \in 1..sq}
+        hintVars == {V(i - 1, r.hints[i]) : i \in {j \in DOMAIN r.hints : r.hints[j] # 0}}
+        singles == {L[2] : L \in {M \in Ls : M[1] = "var"}}
+    IN IF \E L \in Ls : L[1] \notin {"cc", "var"} THEN "formula is not a conjunction of hints and counting lists"
+       ELSE IF \E L \in lists : L[2] # "exactly" \/ L[4] # 1 \/ \E i \in DOMAIN L[3] : L[3][i][1] # "var" THEN "a counting list is not '= 1' over variables"
+       ELSE IF \E U \in expected : U \notin units THEN "a cell / row / column / box rule is missing"
+       ELSE IF \E U \in units : U \notin expected THEN "a list is not a cell / row / column / box rule"
+       ELSE IF singles # hintVars THEN "the givens are not exactly the digits of the puzzle text"
+       ELSE ""
+
 Verdict(r) ==
     CASE r.k = "clique" -> CliqueVerdict(r)
+      [] r.k = "sudoku_cover" -> SudokuCoverVerdict(r)
       [] r.k = "graph" -> GraphVerdict(r)
       [] r.k = "convert" -> ConvertVerdict(r)
       [] r.k = "colors" -> ColorsVerdict(r)
